@@ -1,39 +1,36 @@
 #!/bin/bash
-# Applies every seeded change under /verif/seeded/<name>/patch.diff to /repo in
-# turn, runs the quick checks named in its meta.json ("checks": [...], default:
-# the check of the property it breaks), records which of them report a
-# VIOLATION, and undoes the change straight afterwards. Writes
-# /verif/seeded/README.md. Usage: tools/run_seeded.sh [name ...]
+# tools/run_seeded.sh [name ...]
+# Runs, for every seeded change under /verif/seeded/<name>/ (patch.diff,
+# meta.json with "property" and optional "checks"), the quick checks named in
+# its meta against a scratch worktree of /repo HEAD with the patch applied
+# (tools/try_seed.sh: neither /repo nor /verif is touched), and writes the
+# table /verif/seeded/README.md. The equivalent in-place procedure is:
+#   git -C /repo apply seeded/<name>/patch.diff; ./run.sh <check> quick; git -C /repo checkout -- .
 set -u
 cd /verif
-if [ -n "$(git -C /repo status --porcelain)" ]; then
-  echo "refusing: /repo has uncommitted changes" >&2; exit 2
-fi
 names="$*"
 [ -z "$names" ] && names=$(ls seeded | grep -v README)
-results=/verif/seeded/.results.tsv
+results=/verif/seeded/results.tsv
 [ -f "$results" ] || : > "$results"
 for n in $names; do
   d=seeded/$n
   [ -f "$d/patch.diff" ] || continue
   prop=$(python3 -c "import json;print(json.load(open('$d/meta.json'))['property'])")
   checks=$(python3 -c "import json;m=json.load(open('$d/meta.json'));print(' '.join(m.get('checks',[m['property']])))")
-  if ! git -C /repo apply "$PWD/$d/patch.diff"; then echo "$n: patch does not apply" >&2; continue; fi
-  for c in $checks; do
-    out=$(./run.sh $c quick 2>&1); code=$?
-    nv=$(echo "$out" | grep -c '^VIOLATION')
-    kinds=$(echo "$out" | grep '^  kind=' | sed 's/^  kind=\([^ ]*\).*/\1/' | sort -u | head -4 | tr '\n' ' ')
+  tools/try_seed.sh $d/patch.diff $checks 2>&1 | grep '^RESULT' | while read -r line; do
+    c=$(echo "$line" | sed 's/.*check=\([^ ]*\).*/\1/'); code=$(echo "$line" | sed 's/.*exit=\([^ ]*\).*/\1/')
+    nv=$(echo "$line" | sed 's/.*violations=\([^ ]*\).*/\1/'); kinds=$(echo "$line" | sed 's/.*kinds=//')
     grep -v "^$n	$c	" "$results" > "$results.tmp"; mv "$results.tmp" "$results"
     printf "%s\t%s\t%s\t%s\t%s\t%s\n" "$n" "$c" "$prop" "$code" "$nv" "$kinds" >> "$results"
     echo "$n $c exit=$code violations=$nv $kinds"
   done
-  git -C /repo checkout -- . ; git -C /repo clean -fdq
 done
 python3 - <<'PY'
 import json,os
-rows=[l.rstrip('\n').split('\t') for l in open('/verif/seeded/.results.tsv') if l.strip()]
+rows=[l.rstrip('\n').split('\t') for l in open('/verif/seeded/results.tsv') if l.strip()]
 out=["# Seeded changes and the checks that catch them","",
-"Each directory holds `patch.diff` (a change to dcaiafa/lox that breaks the named property while the repository still compiles and its test suite passes), a demonstration and `meta.json`. The table is written by `tools/run_seeded.sh`, which applies each patch to /repo, runs the named quick checks and undoes the patch.","",
+"Each directory holds `patch.diff` (a change to dcaiafa/lox, written by an independent sub-agent that saw only the property's text, which breaks the named property while the repository still compiles and its unedited test suite passes), the sub-agent's demonstration (`demo/`, run by `demo.cmd`; it fails with the change and passes without it: confirmed with `tools/confirm_seed.sh`) and `meta.json`.",
+"The table is written by `tools/run_seeded.sh`: each patch is applied to a scratch worktree of /repo HEAD and the named quick checks are run against it (exit 1 = the check reports a VIOLATION, as it should).","",
 "| seeded change | breaks | check run | exit | VIOLATION lines | kinds reported |","|---|---|---|---|---|---|"]
 for n,c,p,code,nv,kinds in sorted(rows):
     out.append(f"| {n} | {p} | {c} | {code} | {nv} | {kinds} |")
@@ -42,6 +39,8 @@ for n in sorted(os.listdir('/verif/seeded')):
     mp=f'/verif/seeded/{n}/meta.json'
     if os.path.exists(mp):
         m=json.load(open(mp))
-        out.append(f"* **{n}** ({m['property']}): {m.get('summary','')} — needs: {m.get('what_it_needs_to_manifest','')}")
+        out.append(f"* **{n}** ({m['property']}): {m.get('summary','')}")
+        out.append(f"  * needs: {m.get('what_it_needs_to_manifest','')}")
+        if m.get('first_result'): out.append(f"  * history: {m['first_result']}")
 open('/verif/seeded/README.md','w').write("\n".join(out)+"\n")
 PY
